@@ -19,9 +19,12 @@ for f in glob.glob('/verif/seeded/automut/results.*.jsonl'):
             lines[r['line']-1]=ind+r['after']; open(p,'w').write('\n'.join(lines)); sys.exit(0)
 sys.exit(1)
 PY
+# runs against another tree must not leave their evidence behind
+rm -rf /tmp/kv-evidence-bak; cp -r /verif/evidence /tmp/kv-evidence-bak
 cd /verif
 for c in "$@"; do
   res=$(KV_REPO=$wt ./run $c ${AM_TIER:-quick} 2>&1)
   echo "retest $id $c: exit=$? $(echo "$res" | grep -c '^VIOLATION') violations; keys: $(echo "$res" | grep -o 'key=[^ ]*' | sort | uniq -c | tr '\n' ' ' | cut -c1-200)"
 done
 git -C /repo worktree remove --force $wt; rm -rf /verif/replays/*; ./run setup >/dev/null 2>&1
+rm -rf /verif/evidence; mv /tmp/kv-evidence-bak /verif/evidence
